@@ -11,7 +11,7 @@ import numpy as np
 from scipy import special
 
 from vlib import stats as vs
-from vlib.common import CaseResult, exc_mech, rng_for
+from vlib.common import CaseResult, exc_mech, off, rng_for
 
 ID = "C06"
 RULE = (
@@ -39,7 +39,8 @@ TIMEOUT = {"quick": 1500, "thorough": 10800}
 class Target:
     """Target over a block of keys; theta = concat(ravel(state[k]) for k in sorted(keys))."""
 
-    def __init__(self, rng, kind, shapes):
+    def __init__(self, rng, kind, shapes, box=False):
+        self.box = box
         self.kind = kind
         self.shapes = shapes
         self.keys = sorted(shapes)
@@ -57,10 +58,15 @@ class Target:
                 self.y = rng.integers(0, 2, size=n).astype(np.float64)
             else:
                 self.y = rng.poisson(2.0, size=n).astype(np.float64)
+        # bounded support (box=True): zero density wherever a coordinate is below lo
+        self.lo = np.full(d, -1e30)
+        self.lo[0] = np.round(self.m[0] - 0.4, 2)      # (one bounded coordinate: points outside are left often enough)
 
     # float64 closed forms
     def logp(self, th):
         th = np.asarray(th, np.float64)
+        if self.box and np.any(th < self.lo):
+            return -np.inf
         pr = -0.5 * (th - self.m) @ self.P @ (th - self.m)
         if self.kind == "gauss":
             return pr
@@ -91,6 +97,14 @@ class Target:
         return jnp.concatenate([jnp.ravel(state[k]) for k in self.keys])
 
     def logp_jax(self, state):
+        import jax.numpy as jnp
+
+        val = self._logp_jax(state)
+        if self.box:
+            return jnp.where(jnp.all(self.flat_jax(state) >= jnp.asarray(self.lo, jnp.float32)), val, -jnp.inf)
+        return val
+
+    def _logp_jax(self, state):
         import jax
         import jax.numpy as jnp
 
@@ -131,7 +145,9 @@ def mvn_logpdf(x, mean, prec):
     return -0.5 * r @ prec @ r + 0.5 * ld - 0.5 * d * np.log(2 * np.pi)
 
 
-SHAPE_SETS = [{"a": ()}, {"b": (3,)}, {"zeta": (2,), "alpha": ()}, {"b": (2,), "a": (), "c": (2,)}, {"m": (2, 2)}]
+SHAPE_SETS = [{"a": ()}, {"b": (3,)}, {"zeta": (2,), "alpha": ()}, {"b": (2,), "a": (), "c": (2,)}, {"m": (2, 2)},
+              {"v": (24,)}]     # the last one: a long block (used with a small step size: large proposal precision)
+LONG = 5
 
 
 def make_liesel(target, listing):
@@ -173,8 +189,9 @@ def case_alpha(case, res):
     rng.shuffle(listing)
     if sorted(listing) == listing and len(listing) > 1:
         listing = listing[::-1]
-    T = Target(rng, tkind, shapes)
     use_liesel = bool(case.get("liesel"))
+    box = bool(case.get("box")) and kind in ("rw", "mh") and not use_liesel
+    T = Target(rng, tkind, shapes, box=box)
     if use_liesel:
         iface, base_state = make_liesel(T, listing)
     else:
@@ -333,14 +350,29 @@ def case_alpha(case, res):
             else:
                 lq_f = np.sum(-0.5 * ((xp - 0.3) / 1.5) ** 2)
                 lq_b = np.sum(-0.5 * ((th0 - 0.3) / 1.5) ** 2)
+            if box and not np.isfinite(lp0):
+                if not np.isfinite(lp1):
+                    res.skip("zero density at both points")
+                    continue
+                # from a point of zero density to one of positive density: the ratio is +inf, alpha = 1
+                res.mon("leaves_zero_density_point_with_probability_one")
+                if acc[i] != 1.0 or not accepted:
+                    res.violation("alpha-not-mh-ratio", f"{kind}: pi(x) = 0 at x={np.round(th0, 3).tolist()} and pi(x') > 0 at "
+                                  f"x'={np.round(xp, 3).tolist()} (log pi(x')={lp1:.4f}): min(1, ratio) = 1, but the reported "
+                                  f"acceptance probability is {acc[i]:.6g}, moved={accepted}", w)
+                    break
+                continue
+            if box and np.any(np.abs(np.concatenate([th0, xp]) - np.tile(T.lo, 2)) < 1e-5):
+                res.skip("point on the edge of the support (float32)")
+                continue
             la = min(0.0, (lp1 - lp0) + (lq_b - lq_f))
             if la < -50:
                 res.skip("|log alpha| > 50")
                 continue
             res.mon("reported_alpha_equals_mh_ratio")
             tol = 5e-3 + 3e-6 * (abs(lp0) + abs(lp1) + abs(lq_f) + abs(lq_b))
-            got = np.log(max(acc[i], 1e-300))
-            if abs(got - la) > tol:
+            got = np.log(max(acc[i], 1e-300)) if np.isfinite(acc[i]) else np.nan
+            if off(got, la, tol):
                 res.violation(
                     "alpha-not-mh-ratio",
                     f"{kind}: reported acceptance probability {acc[i]:.6g} (log {got:.5f}) but min(1, pi(x')q(x|x')/(pi(x)q(x'|x))) "
@@ -466,7 +498,8 @@ def case_engine(case, res):
             if la < -50:
                 continue
             res.mon("engine_run_alpha")
-            if abs(np.log(max(acc[c, t], 1e-300)) - la) > 5e-3 + 3e-6 * (abs(lq_f) + abs(lq_b) + abs(Tb.logp(x0))):
+            if off(np.log(max(acc[c, t], 1e-300)) if np.isfinite(acc[c, t]) else np.nan, la,
+                   5e-3 + 3e-6 * (abs(lq_f) + abs(lq_b) + abs(Tb.logp(x0)))):
                 res.violation("alpha-not-mh-ratio", f"engine run, chain {c} transition {t}: IWLS reported {acc[c, t]:.6g}, "
                               f"MH ratio gives {np.exp(la):.6g}", w)
                 return
@@ -488,8 +521,12 @@ def gen_cases(tier, seed):
                         continue
                     rng = rng_for(seed, "c06-gen", i)
                     step = float(np.round(10 ** rng.uniform(-1.3, 0.6), 3))
+                    if sh == LONG:
+                        if kern not in ("iwls", "rw") or tkind != "gauss":
+                            continue
+                        step = 0.02
                     cases.append({"kind": "alpha", "idx": i, "seed": seed, "kernel": kern, "target": tkind, "shapes": sh,
-                                  "step": step, "mh_mode": ["asym_drift", "independence", "window"][i % 3], "liesel": bool(i % 5 == 0),
+                                  "step": step, "mh_mode": ["asym_drift", "independence", "window"][i % 3], "liesel": bool(i % 5 == 0), "box": bool(i % 4 == 1),
                                   "n_states": 4 if q else 8, "n_keys": 48 if q else 128, "cost": 6 if "iwls" in kern else 3})
                     i += 1
     for j in range(6 if q else 60):
